@@ -1,7 +1,107 @@
-(* C06 — a hand always tells its driver what comes next and always finishes. *)
-From PF Require Import Base ModelGame ProofsGameBasic.
+(* C06 — a hand always tells its driver what comes next and always finishes.
+   Good g collects what is proved of every state reachable from a created hand (chips, offers, cards,
+   phases, result); run g ops is the state after any list of operations, refused ones leaving the state
+   as it is; measure g is a non-negative integer computed from the phase, the chips still behind and the
+   seats that have not yet acted. *)
+From Coq Require Import Lia.
+From PF Require Import Base ModelGame ProofsGameBasic ProofsInv ProofsOffers ProofsCards ProofsResult ProofsPhase.
 
-(* once closed (nobody is offered anything), every operation is refused and changes nothing *)
+(* a hand starts only with at least two players with positive bankrolls, a dealer and a deck *)
+Theorem C06_start_conditions :
+  forall c deck g, create c deck = (g, Ok) ->
+    (2 <= length (c_players c))%nat /\
+    dealer_opt g <> None /\
+    (forall x, In x (c_players c) -> 0 < fst x) /\
+    (length (c_players c) * c_hole c + 8 <= length (c_deck c))%nat.
+Proof.
+  intros c deck g H. unfold create in H.
+  destruct (Nat.ltb (length (map init_player (c_players c))) 2) eqn:E2; [discriminate|].
+  destruct (dealer_opt _) eqn:Ed; [|discriminate].
+  destruct (existsb _ _) eqn:Eb; [discriminate|].
+  destruct (Nat.eqb _ 0); [discriminate|]. destruct (Nat.ltb (length (c_deck c)) _) eqn:El; [discriminate|].
+  injection H as <-. apply Nat.ltb_ge in E2. apply Nat.ltb_ge in El. rewrite map_length in *.
+  split; [exact E2|]. split; [|split; [|exact El]].
+  - assert (G : forall (f : pstate -> pstate), (forall p, p_dealer (f p) = p_dealer p) ->
+                forall l i acc, last_dealer (map f l) i acc = last_dealer l i acc).
+    { intros f Hf. induction l as [|p t IH]; intros i acc; simpl; [reflexivity|]. rewrite Hf. apply IH. }
+    unfold dealer_opt, request_ready, reset_all, set_event, map_p, with_players, with_st, reset_round_status in *.
+    cbn [g_players with_st] in *. rewrite ?G by reflexivity. cbn [g_players with_st] in *. rewrite Ed. discriminate.
+  - intros x Hx. destruct (0 <? fst x) eqn:E; [apply Z.ltb_lt; exact E|]. exfalso.
+    assert (existsb (fun p => p_bankroll p <=? 0) (map init_player (c_players c)) = true); [|congruence].
+    apply existsb_exists. exists (init_player x). split; [apply in_map; exact Hx|].
+    destruct x as [bk [[d sb] bb]]. simpl in *. apply Z.leb_le. apply Z.ltb_ge in E. exact E.
+Qed.
+Print Assumptions C06_start_conditions.
+
+(* every reachable state satisfies Good *)
+Theorem C06_reachable_states_are_good :
+  forall c deck g ops, cfg_ok c -> length deck = length (c_deck c) -> create c deck = (g, Ok) -> Good (run g ops).
+Proof. exact Good_reachable. Qed.
+Print Assumptions C06_reachable_states_are_good.
+
+(* the hand always indicates the single thing it is waiting for, and that step always succeeds:
+   everyone ready, antes, blinds, moving on to the next street, or an action from the player to act —
+   who then holds a non-empty offer, every action of which is carried out (a bet needs a positive amount,
+   a raise a level above the wager to match) *)
+Theorem C06_the_awaited_step_succeeds :
+  forall g, Good g ->
+    match st_event (g_st g) with
+    | EvReadyRequested => snd (step g OReady) = Ok
+    | EvAnteRequested => snd (step g OPayAnte) = Ok
+    | EvBlindsRequested => snd (step g OPayBlinds) = Ok
+    | EvRoundClosed => snd (step g ONext) = Ok
+    | EvRoundStarted =>
+        let offers := p_allowed (get_p g (st_cur (g_st g))) in
+        offers <> [] /\
+        forall a x, In a offers -> (a = ABet -> 0 < x) -> (a = ARaise -> st_cw (g_st g) < x) ->
+                    snd (step g (OAct None a x)) = Ok
+    | EvGameClosed => True
+    | EvNone => False
+    end.
+Proof. exact progress. Qed.
+Print Assumptions C06_the_awaited_step_succeeds.
+
+(* the streets run strictly preflop, flop, turn, river: a step keeps the street or moves to the next *)
+Theorem C06_streets_in_order :
+  forall g o, Good g ->
+    st_round (g_st (fst (step g o))) = st_round (g_st g) \/
+    round_num (st_round (g_st (fst (step g o)))) = S (round_num (st_round (g_st g))).
+Proof. exact street_order. Qed.
+Print Assumptions C06_streets_in_order.
+
+(* whatever the players choose: every accepted step decreases the measure, a refused one changes nothing,
+   so no run contains more than measure g accepted steps *)
+Theorem C06_every_accepted_step_decreases_the_measure :
+  forall g o, Good g -> snd (step g o) = Ok -> 0 <= measure (fst (step g o)) < measure g.
+Proof.
+  intros g o HG Hok. split; [apply measure_nonneg, Good_step, HG|apply measure_decreases; assumption].
+Qed.
+Print Assumptions C06_every_accepted_step_decreases_the_measure.
+
+Theorem C06_bounded_number_of_steps :
+  forall g ops, Good g -> zn (accepted g ops) <= measure g.
+Proof. intros g ops HG. apply accepted_steps_bounded. exact HG. Qed.
+Print Assumptions C06_bounded_number_of_steps.
+
+(* and the hand does reach its closed state: doing what it waits for closes it within measure g steps *)
+Theorem C06_the_hand_finishes :
+  forall g, Good g -> exists ops, zn (length ops) <= measure g /\ st_event (g_st (run g ops)) = EvGameClosed.
+Proof.
+  intros g HG. pose proof (measure_nonneg g HG) as H0.
+  destruct (hand_finishes (Z.to_nat (measure g)) g HG) as (ops & Hl & Hc); [unfold zn; lia|].
+  exists ops. split; [unfold zn; lia|exact Hc].
+Qed.
+Print Assumptions C06_the_hand_finishes.
+
+(* the closed state carries a settlement result ... *)
+Theorem C06_closed_state_has_a_result :
+  forall c deck g ops,
+    cfg_ok c -> length deck = length (c_deck c) -> create c deck = (g, Ok) ->
+    st_event (g_st (run g ops)) = EvGameClosed -> g_result (run g ops) <> None.
+Proof. exact closed_has_result. Qed.
+Print Assumptions C06_closed_state_has_a_result.
+
+(* ... and from then on accepts nothing *)
 Theorem C06_closed_accepts_nothing :
   forall g o,
     st_event (g_st g) = EvGameClosed ->
@@ -10,3 +110,17 @@ Theorem C06_closed_accepts_nothing :
     exists e, step g o = (g, e) /\ e <> Ok.
 Proof. exact closed_refuses. Qed.
 Print Assumptions C06_closed_accepts_nothing.
+
+Theorem C06_closed_state_is_final :
+  forall g o, Inv g -> st_event (g_st g) = EvGameClosed -> fst (step g o) = g.
+Proof. exact closed_state_fixed. Qed.
+Print Assumptions C06_closed_state_is_final.
+
+(* non-vacuity: a created hand is Good, and playing it by the awaited steps closes it *)
+Example C06_example :
+  let c := mkCfg 1 0 5 10 false 2 0 [] (seqZ_from 0 30) 1
+                 [(40, (true, false, false)); (30, (false, true, false)); (25, (false, false, true))] in
+  cfg_ok c /\ exists g, create c (seqZ_from 0 30) = (g, Ok) /\
+  st_event (g_st (run g [OReady; OPayAnte; OReady; OPayBlinds; OReady; OAct None AAllin 0; OAct None AAllin 0; OAct None AAllin 0;
+                         ONext; ONext; ONext; ONext])) = EvGameClosed.
+Proof. cbv zeta. split; [unfold cfg_ok; simpl; lia|]. eexists. split; [vm_compute; reflexivity|vm_compute; reflexivity]. Qed.
